@@ -513,8 +513,8 @@ def r5(R):
 # ---------------------------------------------------------------- C01.R6
 
 @rule('C01.R6', 'the open-time scan never indexes a checkpointed or short '
-      'transaction and truncates it unless read-only', props=['C09'],
-      min_instances=3)
+      'transaction and truncates it unless read-only',
+      props=['C09', 'C18'], min_instances=3)
 def r6(R):
     f = R.prog.func('ZODB.FileStorage.FileStorage.read_index')
     g, b, F = R.cfg(f, None, max_depth=0)
